@@ -26,6 +26,7 @@ RULE = (
     "normalised pull/call event log. Non-trivial: >=2 groups returned and >=1 advance of a group that is not "
     "the newest or is partially consumed; distinct = distinct (items, key fn, history) by 64-bit hash."
     " Extensions of rounds 9-12: loops over a group left at once, wildcard-equal and Ellipsis items."
+    " Round 13: key=None given explicitly, keys passed by keyword, awaitable objects as keys."
 )
 COMPONENTS = COMPONENTS_BASE
 ASSUMPTIONS = [
